@@ -772,8 +772,9 @@ func (r *Router) processEvent(ev *types.Event, reqID interface{}) error {
 			}
 
 			// If the span was kept, we want to generate a probe that we'll forward
-			// to a peer IF this span would have been forwarded.
-			ev.Data.MetaRefineryProbe.Set(true)
+			// to a peer IF this span would have been forwarded. The span itself
+			// is now owned by the upstream transmission and must not be touched
+			// any more; the probe is built as a copy below.
 			isProbe = true
 		}
 	}
@@ -787,6 +788,16 @@ func (r *Router) processEvent(ev *types.Event, reqID interface{}) error {
 			WithField("isprobe", isProbe).
 			Logf("Sending span from batch to peer")
 
+		if isProbe {
+			// ProcessSpanImmediately has already queued ev on the upstream
+			// transmission, which serializes the event and reads its destination
+			// only when the batch is sent. Marking and re-addressing that same
+			// event would send the kept span upstream flagged as a probe, or send
+			// its whole batch to the peer (which discards it). Forward a copy.
+			probe := *ev
+			probe.Data.MetaRefineryProbe.Set(true)
+			ev = &probe
+		}
 		ev.APIHost = targetShard.GetAddress()
 
 		// Unfortunately this doesn't tell us if the event was actually
